@@ -133,6 +133,7 @@ def literal_fields(gb, cases):
     return out
 
 
+REPAIR_DOC_NAMES = set(d.name for _, d in gengen.repair_docs())
 LIT_RE = re.compile(r'LIT (ok ([CN]) (.*?)|panic \w+|err \w+) WT ([01]) CLASS ([\w-]+) SPEC (.*)$')
 LDFLT_RE = re.compile(r'LDFLT MODEL (ok (.*?)|panic \w+|err \w+) PROJ (.*?) SPEC (.*)$')
 
@@ -181,7 +182,10 @@ def literal_phase(chk, gb, cases, outs, stats):
             corr.append('model runner (literal schema): %s' % sline[:120])
         else:
             stats['class_free_schema'], stats['lits_typed'] = int(m.group(1)), int(m.group(2))
-            if m.group(1) != '1' or m.group(2) != '1':
+            # documents of repaired shapes (gengen.repair_docs) are modelled and compared, but stay outside the domain of the
+            # general theorems (LitClass still counts an Arc target / a container-const reference as a class)
+            repaired_in_corpus = any(t.split('.')[0] in REPAIR_DOC_NAMES for t in tys)
+            if m.group(2) != '1' or (m.group(1) != '1' and not repaired_in_corpus):
                 corr.append('the corpus is outside the hypotheses of C20_literal_meaning / C20_default_is_idl although the '
                             'generator ran (class_free_schema=%s lits_typed=%s)' % (m.group(1), m.group(2)))
     # ---- per field: Python meaning, emitted Default, model
@@ -211,6 +215,11 @@ def literal_phase(chk, gb, cases, outs, stats):
             continue
         if mm.group(4) == '1' and mm.group(5) == 'none':
             stats['in_proven_domain'] += 1
+        elif tname.split('.')[0] in REPAIR_DOC_NAMES and mm.group(4) == '1':
+            stats['validated_outside_proven_domain'] = stats.get('validated_outside_proven_domain', 0) + 1
+        else:
+            corr.append('%s.%s = %s is outside the domain of C20_literal_meaning (well-typed %s, class %s) although the generator '
+                        'produced code' % (tname, f['name'], gengen.lit_idl(f['lit'])[:60], mm.group(4), mm.group(5)))
         mval = genrun.canon_nan_text(mm.group(3)) if mm.group(2) else None
         if mval is None:
             corr.append('the literal model predicts `%s` for %s.%s = %s but the generator produced code'
@@ -241,6 +250,10 @@ def literal_phase(chk, gb, cases, outs, stats):
             bad = [w for w, x in zip(which, three) if x != want]
             corr.append('Default of %s: %s differ(s) from Python expected_default (%s)'
                         % (tname, ', '.join(bad), genrun.diff_text(three[which.index(bad[0])], want)))
+    # ---- documents whose shape needs a repair that is not in the tree (gengen.repair_docs): the generator must panic on each,
+    #      the model must predict a panic, and the panic is the known finding of the document's class
+    if 'field_id' not in fields[0][3]:
+        corr += repair_phase(chk, gb, stats)
     stats['model_mismatches'] = len(corr)
     if corr and not failing:
         c0 = fields[0][3]
@@ -250,6 +263,59 @@ def literal_phase(chk, gb, cases, outs, stats):
                       dict(kind='correspondence', correspondence='literal lowering (fam/gen/coq/Lit.v vs pilota-build context.rs)',
                            case=c0, details=corr[:20]), no_input=True)
     return failing
+
+
+def repair_phase(chk, gb, stats):
+    """-> correspondence disagreements; known findings are reported through chk.violation(cls=..)"""
+    import subprocess, tempfile
+    corr = []
+    present = gengen.repairs_present()
+    genbin = os.path.join(os.path.dirname(gb.bin), 'pv-gen-build')
+    runner = genrun.FAM.runner
+    stats['repairs_present'] = sorted(present)
+    stats['repair_documents_open'] = 0
+    for name, doc in gengen.repair_docs():
+        if name in present:
+            continue                      # the document is part of the corpus: compared field by field above
+        stats['repair_documents_open'] += 1
+        classes = gengen.repair_doc_class(doc)
+        idl = gengen.doc_idl(doc)
+        d = tempfile.mkdtemp(prefix='c20_probe_', dir=gb.out_dir)
+        try:
+            src, out = os.path.join(d, doc.name + '.thrift'), os.path.join(d, 'out.rs')
+            open(src, 'w').write(idl)
+            r = subprocess.run(['timeout', '120', genbin, 'plain', out, src], capture_output=True, text=True, env=dict(core.ENV, RUST_BACKTRACE='0'))
+            log = '\n'.join(l for l in (r.stdout + r.stderr).splitlines() if not l.startswith('cargo:'))
+            panicked = 'panicked at' in log and not os.path.exists(out)
+            msg = next((l for l in log.splitlines() if 'panicked at' in l), '')
+            i = log.find(msg)
+            detail = ' '.join(log[i:].splitlines()[:2])[:300] if msg else log[-300:]
+            # the model on the same document
+            mpanic = None
+            if os.path.exists(runner) and have_property_file(PROP):
+                sch1 = gengen.lower_docs([doc])
+                sp, lp = os.path.join(d, 'schema.txt'), os.path.join(d, 'lschema.txt')
+                open(sp, 'w').write(gengen.schema_txt(sch1)); open(lp, 'w').write(gengen.lschema_txt(sch1))
+                lines = ['lit %s %d' % (n, f['id']) for n in sch1.order if sch1.types[n]['kind'] == 'struct'
+                         for f in sch1.types[n]['fields'] if f['lit'] is not None]
+                lines += ['lconst %d' % i for i in range(len(sch1.consts))]
+                mo = core.run_lines(runner, lines, args=[sp, lp])
+                mpanic = any((o or '').startswith(('LIT panic', 'LCONST panic')) for o in mo)
+            if panicked:
+                if name not in classes:
+                    corr.append('document %s panics the generator but is not in class %s' % (doc.name, name))
+                if mpanic is False:
+                    corr.append('the generator panics on document %s (%s) but the literal model predicts no panic' % (doc.name, detail[:120]))
+                chk.violation('C14/C20: the generator panics on a well-typed default (%s): %s' % (name, detail),
+                              dict(kind='generator-panic', finding_class=name, document=doc.name, idl=idl, generator_output=log[-1500:],
+                                   proposed_patch='fam/gen/patches/%s.diff' % name), cls=name)
+            else:
+                corr.append('document %s (class %s) no longer panics the generator although the repair marker of %s is not in context.rs'
+                            % (doc.name, name, name))
+        finally:
+            import shutil
+            shutil.rmtree(d, ignore_errors=True)
+    return corr
 
 
 def run(chk, replay=None):
